@@ -109,6 +109,11 @@ pub struct RunCfg {
     /// 0 = until the command ends; n > 0 = the limit is lifted again when the
     /// n-th batch after `fd_from_batch` begins (a transient shortage)
     pub fd_for_batches: u32,
+    /// keep-tmp-dir, and where the temporary directory lives: true = on
+    /// another file system than the output (TMPDIR under /tmp or /var/tmp
+    /// while the output is on the run's tmpfs), if this machine has one
+    pub keep_tmp: bool,
+    pub tmp_on_other_fs: bool,
 }
 
 #[derive(Clone, Debug, PartialEq, Eq)]
@@ -365,6 +370,25 @@ fn starve_fds(headroom: u32) -> Option<libc::rlimit> {
     Some(old)
 }
 
+/// A fresh directory on a file system other than the one `dir` is on (the
+/// run directories live on a tmpfs; /tmp and /var/tmp usually do not).
+fn other_fs_dir(dir: &Path) -> Option<PathBuf> {
+    use std::os::unix::fs::MetadataExt;
+    let here = std::fs::metadata(dir).ok()?.dev();
+    for base in ["/tmp", "/var/tmp"] {
+        if let Ok(m) = std::fs::metadata(base) {
+            if m.dev() != here {
+                let p = Path::new(base).join(format!("binsim-tmp-{}", std::process::id()));
+                let _ = std::fs::remove_dir_all(&p);
+                if std::fs::create_dir_all(&p).is_ok() {
+                    return Some(p);
+                }
+            }
+        }
+    }
+    None
+}
+
 /// Execute one CLI invocation under the seeded scheduler.
 pub fn invoke(input: &Input, cfg: &RunCfg, dir: &Path) -> Invocation {
     let _ = std::fs::remove_dir_all(dir);
@@ -408,7 +432,13 @@ pub fn invoke(input: &Input, cfg: &RunCfg, dir: &Path) -> Invocation {
         let junk: Vec<u8> = (0..input.stale_output).map(|i| (i * 31 + 7) as u8).collect();
         std::fs::write(&out, junk).expect("harness: stale output");
     }
-    let argv = Arc::new(argv_for(input, Some(cfg), &inputs, &out, &dir.join("tmp")));
+    let other_tmp: Option<PathBuf> = if cfg.tmp_on_other_fs { other_fs_dir(dir) } else { None };
+    let tmp_dir = other_tmp.clone().unwrap_or_else(|| dir.join("tmp"));
+    let mut argv_v = argv_for(input, Some(cfg), &inputs, &out, &tmp_dir);
+    if cfg.keep_tmp {
+        argv_v.push("--keep-tmp-dir".into());
+    }
+    let argv = Arc::new(argv_v);
     let rec = Arc::new(Mutex::new(Rec::default()));
     let result: Arc<Mutex<Option<Result<(), String>>>> = Arc::new(Mutex::new(None));
     *TRACE.lock().unwrap() = Some(Trace::default());
@@ -491,6 +521,9 @@ pub fn invoke(input: &Input, cfg: &RunCfg, dir: &Path) -> Invocation {
             Err(m)
         }
     };
+    if let Some(t) = &other_tmp {
+        let _ = std::fs::remove_dir_all(t);
+    }
     let output = std::fs::read(&out).ok();
     let _ = std::fs::remove_dir_all(dir);
     Invocation {
